@@ -179,6 +179,29 @@ NextIGMP == \/ \E kind \in 1..4, tag \in {1, 9} : c' = <<"v12", kind, tag>> /\ E
                  /\ c' = <<"v3r", nrec, nsrc>>
                  /\ LET recs == [i \in 1..nrec |-> GroupRecEl("r" \o ToString(i), 1 + (i % 6), (nsrc + i) % 6, 10 * i)] IN
                     Emit("IGMP", Igmp3ReportEl("g", recs, nrec + nsrc), recs)
+\* extension headers of every size class: HEL up to 255 (2048 bytes), filled with options of 8 bytes and one of 6
+HbhBig(n, next, hel, tag) ==
+  LET opts == [i \in 1..hel |-> OptEl(Nm(n, i), 30 + (i % 200), 6, tag + i)] \o <<OptEl(Nm(n, 0), 1, 4, tag)>>
+      t == [T |-> "HopByHopHeader", NextHeader |-> <<next>>, HEL |-> <<hel>>, Options |-> TreesOf(opts)] IN
+  El(n, t, OpsOf(opts) \o <<New(n, "NewHopByHopHeader", <<>>), Set(n, "NextHeader", <<next>>), Set(n, "HEL", <<hel>>), Set(n, "Options", RefsOf(opts))>>)
+Ip6With(n, hb, rt, first, proto, tag, dl) ==
+  LET pay == L4(Nm(n, 1), proto, tag + 30, dl)
+      t0 == [T |-> "IPv6", Version |-> <<6>>, TrafficClass |-> <<3>>, FlowLabel |-> <<0, 1, 2, 3>>, Length |-> V(tag, 2),
+             NextHeader |-> <<first>>, HopLimit |-> V(tag + 1, 1), NWSrc |-> V(tag + 2, 16), NWDst |-> V(tag + 3, 16),
+             HbhHeader |-> (IF hb = <<>> THEN NilT ELSE hb[1].tree), RoutingHeader |-> (IF rt = <<>> THEN NilT ELSE rt[1].tree),
+             FragmentHeader |-> NilT, Data |-> pay.tree] IN
+  El(n, t0, pay.ops \o OpsOf(hb) \o OpsOf(rt) \o <<NewT(n, "IPv6")>>
+       \o SetAll(n, t0, <<"Version", "TrafficClass", "FlowLabel", "Length", "NextHeader", "HopLimit", "NWSrc", "NWDst">>)
+       \o (IF hb = <<>> THEN <<>> ELSE <<Set(n, "HbhHeader", Ref(hb[1].n))>>) \o (IF rt = <<>> THEN <<>> ELSE <<Set(n, "RoutingHeader", Ref(rt[1].n))>>)
+       \o <<Set(n, "Data", Ref(pay.n))>>)
+Hels == {0, 1, 2, 7, 30, 31, 32, 33, 63, 64, 127, 128, 254, 255}
+NextEXT == \E hel \in Hels, tag \in {3, 80} :
+             \/ /\ c' = <<"hbh", hel, tag>> /\ Emit("EXT", HbhBig("h", 17, hel, tag), <<>>)
+             \/ /\ c' = <<"rt", hel, tag>> /\ Emit("EXT", RtEl("r", 58, hel, tag), <<>>)
+             \/ /\ c' = <<"ip6hbh", hel, tag>> /\ LET hb == HbhBig("h", 17, hel, tag) IN Emit("EXT", Ip6With("i", <<hb>>, <<>>, 0, 17, tag, 5), <<hb>>)
+             \/ /\ c' = <<"ip6rt", hel, tag>> /\ LET rt == RtEl("r", 58, hel, tag) IN Emit("EXT", Ip6With("i", <<>>, <<rt>>, 43, 58, tag, 5), <<rt>>)
+             \/ /\ c' = <<"ip6both", hel, tag>>
+                /\ LET hb == HbhBig("h", 43, hel, tag)  rt == RtEl("r", 6, 255 - hel, tag) IN Emit("EXT", Ip6With("i", <<hb>>, <<rt>>, 0, 6, tag, 5), <<hb, rt>>)
 \* base frames for the totality check (C08): for every decoder entry point a few well-formed inputs written by EncPkt
 DhcpTree(tag, hlen, opts) ==
   [T |-> "DHCP", Operation |-> <<1 + (tag % 2)>>, HardwareType |-> <<1>>, HardwareLen |-> <<hlen>>, HardwareOpts |-> <<0>>, Xid |-> V(tag, 4), Secs |-> V(tag + 1, 2),
@@ -217,6 +240,6 @@ NextBASE == \/ \E t \in BaseTrees :
                  /\ PrintT(ToJson([entry |-> "DHCPOptions", kind |-> "DHCPOptions", frame |-> Flat([i \in DOMAIN ol |-> EncDhcpOpt(ol[i])]) \o <<255>>]))
 Init == c = <<>>
 Next == c = <<>> /\ CASE Family = "VLAN" -> NextVLAN [] Family = "ETH" -> NextETH [] Family = "IP4" -> NextIP4 [] Family = "IP6" -> NextIP6
-                      [] Family = "FRAG" -> NextFRAG [] Family = "TCP" -> NextTCP [] Family = "L4" -> NextL4 [] Family = "IGMP" -> NextIGMP [] Family = "BASE" -> NextBASE
+                      [] Family = "FRAG" -> NextFRAG [] Family = "TCP" -> NextTCP [] Family = "L4" -> NextL4 [] Family = "IGMP" -> NextIGMP [] Family = "BASE" -> NextBASE [] Family = "EXT" -> NextEXT
 Spec == Init /\ [][Next]_c
 =============================================================================
